@@ -27,6 +27,8 @@ func (slf *SyncSlice[V]) Get(index int) V {
 }
 
 func (slf *SyncSlice[V]) GetWithRange(start, end int) []V {
+	slf.rw.RLock()
+	defer slf.rw.RUnlock()
 	return slf.data[start:end]
 }
 
